@@ -843,6 +843,31 @@ impl Fabric {
         &self.noc
     }
 
+    /// Verification hook (feature `verif`): replace the certificates this node PRESENTS in a CASE
+    /// handshake (and the key it signs with) without touching its identity (fabric id, node id,
+    /// root, IPK) - the emulation of a dishonest peer that answers for one fabric / node with the
+    /// credentials of another.
+    #[cfg(feature = "verif")]
+    pub fn verif_present_certs(
+        &mut self,
+        noc: &[u8],
+        icac: &[u8],
+        secret_key: crate::crypto::CanonPkcSecretKeyRef<'_>,
+    ) -> Result<(), Error> {
+        self.noc.clear();
+        self.noc
+            .extend_from_slice(noc)
+            .map_err(|_| ErrorCode::BufferTooSmall)?;
+        self.icac_or_vvsc.clear();
+        self.icac_or_vvsc
+            .extend_from_slice(icac)
+            .map_err(|_| ErrorCode::BufferTooSmall)?;
+        self.vvsc_set = false;
+        self.secret_key.load(secret_key);
+
+        Ok(())
+    }
+
     /// Return the fabric's IPK
     pub fn ipk(&self) -> &KeySet {
         &self.ipk
